@@ -23,6 +23,7 @@ pub mod c16;
 pub mod c19;
 pub mod c14;
 pub mod c17;
+pub mod c18;
 
 pub type MonitorFn = fn(&Ctx) -> Vec<Report>;
 
@@ -45,6 +46,7 @@ pub fn registry() -> Vec<(&'static str, MonitorFn)> {
         ("C15", c15::run as MonitorFn),
         ("C16", c16::run as MonitorFn),
         ("C17", c17::run as MonitorFn),
+        ("C18", c18::run as MonitorFn),
         ("C19", c19::run as MonitorFn),
     ]
 }
